@@ -196,6 +196,8 @@ def to_val(v):
         return T.Val.VF(v.payload[1])
     if isinstance(v, VTuple):
         return tuple_val(v)
+    if isinstance(v, VClassSym):
+        return T.Val.VO(v.z)
     raise Untranslated('cannot store value of kind %s into a dynamic slot' % v.kind)
 
 
